@@ -265,7 +265,7 @@ def classify_by_patch(src, name, cfgs, ref):
 # ---------------------------------------------------------------------------------------------- reporting
 stats = {"programs": 0, "configs_run": 0, "units": {}, "generator_miss": [], "timeouts": 0, "c2m_compile_errors": 0,
          "tags_checked_vs_python": 0, "lean_queries": 0, "bf_images": 0, "pairs_covered": set(), "scopy_sizes": set(),
-         "bitf_widths": set(), "diff_programs": 0}
+         "bitf_widths": set(), "saddr_sizes": set(), "diff_programs": 0}
 reported = set()
 
 
@@ -375,7 +375,11 @@ N_TARGET = 0 if BASELINE_MODE else 160 if QUICK else 4000
 GEN_BUDGET = BUDGET * (0.62 if QUICK else 0.65)
 tg = time.time()
 progs_meta = []          # (name, units) of programs that ran clean, for the oracle stages
-parse_line = re.compile(r"^(\S+) (-?\d+)$")
+parse_line = re.compile(r"^(\S+) (-?\d+|-?0x[0-9a-f.]+p[-+]\d+)$")
+
+
+def parse_val(x):
+    return float.fromhex(x) if "x" in x else int(x)
 
 
 def do_prog(job):
@@ -405,6 +409,7 @@ with ThreadPoolExecutor(max_workers=16) as ex:
                 stats["units"][u["kind"]] = stats["units"].get(u["kind"], 0) + 1
                 if u["kind"] == "conv": stats["pairs_covered"].add(u["info"])
                 if u["kind"] == "scopy": stats["scopy_sizes"].update(int(x) for x in u["info"].split(","))
+                if u["kind"] == "saddr": stats["saddr_sizes"].add(int(u["info"]))
                 if u["kind"] == "bitf": stats["bitf_widths"].update(w for (_, _, _, _, w) in u["bf"]["stores"])
             g0, g2 = res["gcc0"], res["gcc2"]
             if g0[0] in ("compile-error", "timeout") or g0[:2] != g2[:2]:
@@ -418,13 +423,13 @@ with ThreadPoolExecutor(max_workers=16) as ex:
             for l in g0[1].split("\n"):
                 m = parse_line.match(l)
                 if m:
-                    vals[m.group(1)] = int(m.group(2))
+                    vals[m.group(1)] = parse_val(m.group(2))
             for u in units:
                 for tag, v in u["expect"].items():
                     stats["tags_checked_vs_python"] += 1
                     gv = vals.get(tag)
                     if gv != v:
-                        py_mismatch.append({"program": idx, "tag": tag, "python": v, "gcc": gv})
+                        py_mismatch.append({"program": idx, "tag": tag, "python": str(v), "gcc": gv})
                 for q in u["lean"]:
                     lean_queries.append(q)
                 if u["kind"] == "bitf":
@@ -580,12 +585,12 @@ ck.cov["evaluations"] = stats["configs_run"]
 ck.cov["distinct_nontrivial"] = stats["programs"] - len(stats["generator_miss"]) + ct_stats["compared"]
 ck.cov["rule"] = ("one evaluation = one (program, configuration) run, configuration in {gcc -O0, gcc -O2, c2m -ei, -eg -O0..-O3, -el, "
                   "-eb}; a program counts as distinct+nontrivial when gcc -O0 and -O2 agree on it (UB canary) and every c2m "
-                  "configuration was compared with them; generated programs are seeded by VERIF_SEED and consist of 4 units "
-                  "(conv/cexpr/bitf/init/ctrl/scopy/calls); c-tests programs are taken from /repo/c-tests at run time")
+                  "configuration was compared with them; generated programs are seeded by VERIF_SEED and consist of 5 units "
+                  "(conv/cexpr/fcexpr/bitf/init/ctrl/scopy/saddr/calls); c-tests programs are taken from /repo/c-tests at run time")
 ck.cov["distribution"] = {
     "generated_programs": stats["programs"], "units_by_kind": stats["units"], "units_total": n_units,
     "type_pairs_covered": len(stats["pairs_covered"]), "struct_copy_sizes_covered": len(stats["scopy_sizes"]),
-    "bitfield_widths_covered": len(stats["bitf_widths"]),
+    "bitfield_widths_covered": len(stats["bitf_widths"]), "struct_addressing_unit_sizes": sorted(stats["saddr_sizes"]),
     "values_checked_against_generator_evaluator": stats["tags_checked_vs_python"],
     "expressions_checked_against_lean_cEval": stats["lean_queries"], "bitfield_images_checked_against_lean": stats["bf_images"],
     "generator_misses": len(stats["generator_miss"]), "generator_miss_samples": stats["generator_miss"][:3],
